@@ -97,8 +97,19 @@ enum Outcome {
 }
 
 fn is_num_form_only(a: &Value, b: &Value) -> bool {
+  // the same mathematical value written once as an integer and once as a float (4 vs 4.0); two different integers are
+  // different values even when they round to the same double
+  fn int_of(n: &serde_json::Number) -> Option<i128> {
+    n.as_i64().map(|i| i as i128).or_else(|| n.as_u64().map(|u| u as i128))
+  }
   match (a, b) {
-    (Value::Number(x), Value::Number(y)) => x != y && x.as_f64() == y.as_f64(),
+    (Value::Number(x), Value::Number(y)) if x != y && x.is_f64() != y.is_f64() => {
+      let (i, f) = if x.is_f64() { (int_of(y), x.as_f64()) } else { (int_of(x), y.as_f64()) };
+      match (i, f) {
+        (Some(i), Some(f)) => f.is_finite() && f.fract() == 0.0 && f.abs() < 1.0e30 && (f as i128) == i,
+        _ => false,
+      }
+    }
     _ => false,
   }
 }
@@ -295,6 +306,9 @@ fn value() -> BoxedStrategy<Value> {
     2 => prop_oneof![Just("2030-01-01T00:00:00Z"), Just("2030-01-01T00:00:00+00:00"), Just("2019-01-01T00:00:00+00:00"), Just("2030-06-30T23:59:59.5-05:00"), Just("2000-02-29T12:00:00.000Z")].prop_map(|s| json!(s)),
     1 => Just(json!(137)),
     2 => (-3i64..4).prop_map(|i| json!(i)),
+    // integers where i64, u64 and f64 part ways
+    2 => prop_oneof![Just(json!(u64::MAX)), Just(json!(u64::MAX - 1)), Just(json!(9223372036854775808u64)), Just(json!(9223372036854775809u64)), Just(json!(i64::MAX)), Just(json!(i64::MIN)), Just(json!(i64::MIN + 1)),
+                     Just(json!(9007199254740992u64)), Just(json!(9007199254740993u64)), Just(json!(17557578181808258561u64))],
     1 => Just(json!(1.0)),
     1 => Just(json!(1.5)),
     2 => prop_oneof![Just(json!(3.141526)), Just(json!(0.1)), Just(json!(0.30000000000000004)), Just(json!(2.5e-7)), Just(json!(123456.789)), (1i64..1_000_000, 1u32..9).prop_map(|(m, d)| json!(format!("{}e-{}", m, d).parse::<f64>().unwrap()))],
@@ -353,7 +367,7 @@ fn typed(key: &str, v: &Value, form: u8) -> ClaimSpec {
 
 fn case(proto: Proto, layer: Layer) -> BoxedStrategy<ExpectCase> {
   // base claim set S, expectations derived from it, then per-token perturbations of S
-  (gen::bytes32(), vec((key(), value()), 0..5), vec((any::<u16>(), 0u8..11, value(), any::<u8>()), 0..4), vec((0u8..6, any::<u16>(), value()), 1..=6), any::<bool>(), vec((1u8..6, any::<u16>(), 0u8..11, value(), any::<u8>()), 0..3), any::<bool>(), prop_oneof![3 => Just(0u8), 2 => 1u8..5])
+  (gen::bytes32(), vec((key(), value()), 0..5), vec((any::<u16>(), 0u8..12, value(), any::<u8>()), 0..4), vec((0u8..6, any::<u16>(), value()), 1..=6), any::<bool>(), vec((1u8..6, any::<u16>(), 0u8..12, value(), any::<u8>()), 0..3), any::<bool>(), prop_oneof![3 => Just(0u8), 2 => 1u8..5])
     .prop_map(move |(seed, base, exp_rel, perturb, via_builder, late_rel, via_extend, respell)| {
       let base_obj: serde_json::Map<String, Value> = base.iter().cloned().collect();
       let base_keys: Vec<String> = base_obj.keys().cloned().collect();
@@ -375,6 +389,11 @@ fn case(proto: Proto, layer: Layer) -> BoxedStrategy<ExpectCase> {
               if n.is_finite() { typed(&k, &json!(n), *form) } else { typed(&k, &cur, *form) }
             }
             _ => typed(&k, &json!(0.1 + 0.2), *form),
+          },
+          11 => match (cur.as_u64(), cur.as_i64()) {                             // the neighbouring integer
+            (Some(u), _) => typed(&k, &json!(if *form % 2 == 0 && u < u64::MAX { u + 1 } else { u.wrapping_sub(1) }), *form),
+            (_, Some(i)) => typed(&k, &json!(if *form % 2 == 0 && i < i64::MAX { i + 1 } else { i.wrapping_sub(1) }), *form),
+            _ => typed(&k, &json!(u64::MAX), *form),
           },
           10 => match cur.as_str().and_then(|t| respell_time(t, *form)) {              // a timestamp written another way
             Some(t) => typed(&k, &json!(t), *form),
